@@ -62,6 +62,10 @@ func genC14(tier string) (map[string]string, error) {
 			fmt.Fprintf(&sb, "\n//verif:harness %s\nfunc ZZ_C14_%s_%s() {\n", attrs, t.Name, m)
 			sb.WriteString(operand("x", "A"))
 			sb.WriteString(t.operand("y", "B"))
+			if bits == 0 {
+				// bound (placed before the call: assumptions are not retroactive)
+				sb.WriteString("\tzzAssume(zzOr(B.Cmp(big.NewInt(128)) < 0, !B.IsUint64()))\n")
+			}
 			fmt.Fprintf(&sb, "\tout := zzCatch(func() any { return x.%s(nil, y) })\n", m)
 			if t.Signed {
 				sb.WriteString("\tif B.Sign() < 0 {\n\t\tzzAssert(\"negative-shift-fails\", out.PanicIs(\"*interpreter.NegativeShiftError\") || out.PanicIs(\"values.NegativeShiftError\"))\n\t\treturn\n\t}\n")
@@ -69,7 +73,6 @@ func genC14(tier string) (map[string]string, error) {
 			if bits == 0 {
 				// unbounded: overflow error allowed when the amount does not fit in 64 bits
 				sb.WriteString("\tif !B.IsUint64() {\n\t\tzzAssert(\"huge-shift-fails-with-overflow\", out.PanicIs(\"*interpreter.OverflowError\") || out.PanicIs(\"values.OverflowError\"))\n\t\treturn\n\t}\n")
-				sb.WriteString("\tzzAssume(B.Cmp(big.NewInt(128)) < 0)\n")
 			} else {
 				fmt.Fprintf(&sb, "\tif B.Cmp(big.NewInt(%d)) >= 0 {\n", bits)
 				sb.WriteString("\t\tzzAssert(\"never-fails\", !out.Panicked)\n\t\tif out.Panicked {\n\t\t\treturn\n\t\t}\n")
